@@ -148,7 +148,10 @@ func (pe *PolicyEngine) getPeer(p string) (k8s.Peer, error) {
 		return &k8s.IPBlockPeer{IPBlock: peerIPBlock}, nil
 	}
 	// check if input peer is an ip address
-	if net.ParseIP(p) != nil {
+	if ip := net.ParseIP(p); ip != nil {
+		if ip.To4() == nil { // IPBlock supports only IPv4
+			return nil, errors.New(netpolerrors.InvalidPeerErrStr(p))
+		}
 		peerIPBlock, err := netset.IPBlockFromIPAddress(p)
 		if err != nil {
 			return nil, err
